@@ -367,6 +367,12 @@ func runSchedule(c *Ctx, rng *RNG, cfg rtConfig) *rtRun {
 	r := &rtRun{c: c, nsrc: cfg.nsrc, actors: map[string]*actor{}, ctxs: map[int]context.Context{}, cancels: map[int]context.CancelFunc{},
 		unregDone: map[int]int{}, regSerial: map[int]uint64{}, regHasCfg: map[int]bool{}, handleIDs: map[any]int{}, enableOKStep: -1, stuckHandle: -1,
 		skipInit: cfg.skipInit, delay: cfg.delay, suppress: cfg.suppress, cfg: cfg, kindCount: map[string]int{}, opCount: map[string]int{}}
+	// the implementation-only streams that ran before (and the previous schedule's callbacks) may have left
+	// goroutines of the library that are still on their way out: they would arrive at THIS schedule's hooks (a stale
+	// monitor's exit hook) and show up in its leak check.  Wait until none is left.
+	if left := rtDrainStale(5 * time.Second); left != "" {
+		c.Res.Count("stale-library-goroutines-at-schedule-start")
+	}
 	rtCur = r
 	defer func() { rtCur = nil }()
 	if c.WorkDir != "" {
@@ -794,4 +800,33 @@ func (r *rtRun) shutdown(rng *RNG, cfg rtConfig) {
 		}
 	}
 	r.shutdownOK = true
+}
+
+// rtDrainStale waits until no goroutine other than the caller has a frame of the library's root package; it returns
+// the stack of one that is still there when the time is up ("" = none)
+func rtDrainStale(maxWait time.Duration) string {
+	buf := make([]byte, 1<<18)
+	deadline := time.Now().Add(maxWait)
+	me := fmt.Sprintf("goroutine %d [", curGoid())
+	for {
+		n := runtime.Stack(buf, true)
+		for n == len(buf) {
+			buf = make([]byte, 2*len(buf))
+			n = runtime.Stack(buf, true)
+		}
+		left := ""
+		for _, blk := range strings.Split(string(buf[:n]), "\n\n") {
+			if strings.HasPrefix(blk, me) {
+				continue
+			}
+			if strings.Contains(blk, "github.com/vimeo/dials.") {
+				left = blk
+				break
+			}
+		}
+		if left == "" || time.Now().After(deadline) {
+			return left
+		}
+		time.Sleep(200 * time.Microsecond)
+	}
 }
